@@ -41,8 +41,8 @@ Proof. exact page_roundtrip. Qed.
     codes for a chunk implies the recomputed sums equal the footer's claims. *)
 Theorem C02_check_chunk_sound : forall c, check_chunk c = [] ->
   sum (map p_nvalues (data_pages c)) = nat_of_field 5 (c_meta c) /\
-  sum (map (fun p => p_hlen p + p_comp p)%nat (c_pages c)) = nat_of_field 7 (c_meta c) /\
-  sum (map (fun p => p_hlen p + p_uncomp p)%nat (c_pages c)) = nat_of_field 6 (c_meta c) /\
+  sumN (map (fun p => p_hlen p + p_comp p)%nat (c_pages c)) = n_of_field 7 (c_meta c) /\
+  sumN (map (fun p => p_hlen p + p_uncomp p)%nat (c_pages c)) = n_of_field 6 (c_meta c) /\
   forallb p_crc_ok (c_pages c) = true.
 Proof.
   intros c H. unfold check_chunk in H.
@@ -53,7 +53,7 @@ Proof.
          | Hc : check ?b _ = [] |- _ =>
              let E := fresh "E" in destruct b eqn:E; [clear Hc|discriminate Hc]
          end.
-  repeat split; try (apply Nat.eqb_eq; assumption); assumption.
+  repeat split; try (apply Nat.eqb_eq; assumption); try (apply N.eqb_eq; assumption); assumption.
 Qed.
 
 Print Assumptions C02_levels_decode.
